@@ -4,6 +4,7 @@ package c14
 
 import (
 	"fmt"
+	"github.com/form3tech-oss/f1/v2/internal/trigger/api"
 	"math"
 	"sort"
 	"strconv"
@@ -250,6 +251,7 @@ func TestC14Ctors(t *testing.T) {
 				err = e
 				if e == nil {
 					iv, tot = rt.IterationDuration, rt.Duration
+					usable(rt, nil)
 				}
 			})
 			o.Case("calc_constant", []string{kit.Str(rs), kit.Str(dist)}, kit.Res(crashed, err, kit.List(kit.I(int64(iv)), kit.I(int64(tot)))), "ctor", "nt")
@@ -268,6 +270,7 @@ func TestC14Ctors(t *testing.T) {
 				err = e
 				if e == nil {
 					iv, tot = rt.IterationDuration, rt.Duration
+					usable(rt, nil)
 				}
 			})
 			o.Case("calc_ramp", []string{kit.Str(a), kit.Str(b), kit.Str(dist), kit.I(dur)}, kit.Res(crashed, err, kit.List(kit.I(int64(iv)), kit.I(int64(tot)))), "ctor", "nt")
@@ -279,11 +282,22 @@ func TestC14Ctors(t *testing.T) {
 			freq := kit.Pick(r, int64(0), -1, 1, 1_000_000, 100_000_000, 1_000_000_000, 250_000_000)
 			var iv, tot time.Duration
 			var err error
+			// --startTime: none, in the past, in the future (the profile has not begun when it is first evaluated)
+			var start *time.Time
+			switch r.Intn(3) {
+			case 1:
+				t := time.Now().Add(-time.Duration(r.Range(1, 100)) * time.Second)
+				start = &t
+			case 2:
+				t := time.Now().Add(time.Duration(r.Range(1, 100)) * time.Minute)
+				start = &t
+			}
 			crashed, _ := kit.Guard(func() {
-				rt, e := staged.CalculateStagedRate(0, time.Duration(freq), st, dist, nil)
+				rt, e := staged.CalculateStagedRate(0, time.Duration(freq), st, dist, start)
 				err = e
 				if e == nil {
 					iv, tot = rt.IterationDuration, rt.Duration
+					usable(rt, start)
 				}
 			})
 			o.Case("calc_staged", []string{kit.I(freq), kit.Str(st), kit.Str(dist)}, kit.Res(crashed, err, kit.List(kit.I(int64(iv)), kit.I(int64(tot)))), "ctor", "nt")
@@ -299,9 +313,25 @@ func TestC14Ctors(t *testing.T) {
 				err = e
 				if e == nil {
 					iv, tot = rt.IterationDuration, rt.Duration
+					usable(rt, nil)
 				}
 			})
 			o.Case("calc_gaussian", []string{kit.I(freq), kit.I(sd), kit.B(wok), kit.Str(dist)}, kit.Res(crashed, err, kit.List(kit.I(int64(iv)), kit.I(int64(tot)))), "ctor", "nt")
+		}
+	}
+}
+
+// usable: an accepted trigger's rate function can be evaluated - before its start time, at it,
+// inside the profile and after its end, several times over - without crashing the process.
+func usable(rt *api.Rates, start *time.Time) {
+	base := time.Now()
+	if start != nil {
+		base = *start
+	}
+	tot := rt.Duration
+	for rep := 0; rep < 2; rep++ {
+		for _, at := range []time.Time{time.Now(), base.Add(-time.Hour), base, base.Add(time.Nanosecond), base.Add(tot / 2), base.Add(tot), base.Add(tot + time.Second)} {
+			_ = rt.Rate(at)
 		}
 	}
 }
@@ -324,10 +354,10 @@ func weightsOK(w string) bool {
 
 type stageAST struct {
 	mode, startRate, endRate, rate, dist, weights, stages *string
-	conc                                                 *int64
-	jitter, volume                                       *float64
-	dur, freq, repeat, peak, stddev                      *int64
-	params                                               *map[string]string
+	conc                                                  *int64
+	jitter, volume                                        *float64
+	dur, freq, repeat, peak, stddev                       *int64
+	params                                                *map[string]string
 }
 
 type cfgAST struct {
@@ -670,14 +700,21 @@ func TestC14Config(t *testing.T) {
 				}
 				at := time.Unix(0, now)
 				var first int
-				_, _ = kit.Guard(func() {
+				rateCrashed, pv := kit.Guard(func() {
 					first = s.Rate(at)
 					for q := 0; q < 23; q++ {
 						if s.Rate(at) != first {
 							obs[k] = "1"
 						}
 					}
+					// and at a few other instants: the rate function of an accepted stage must be usable
+					for _, d := range []time.Duration{-time.Hour, s.StageDuration / 2, s.StageDuration, s.StageDuration + time.Second} {
+						_ = s.Rate(at.Add(d))
+					}
 				})
+				if rateCrashed {
+					o.Fail("config-rate-crash", fmt.Sprintf("the rate function of stage %d of an accepted config panicked (%v); config:\n%s", k, pv, y))
+				}
 			}
 			o.Case("config_jitter_ok", []string{c.enc(), kit.I(now), kit.List(obs...)}, "T", "config", "jitter")
 		}
